@@ -11,6 +11,7 @@ search : on the implementation's own output: (a) the extracted well-formedness p
          evaluated on the real AnalyserModel, (b) ground truth of the generator, (c) invariance of
          (model type, role of every class) across the re-orderings / renamings of one system.
 """
+import itertools
 import json
 import os
 import subprocess
@@ -121,6 +122,21 @@ def kf_dependency_retarget(system, eq_ids):
     return found == len(eq_ids) and found > 0
 
 
+def kf_same_component(group_systems):
+    """matcher of C05-same-component-equivalents: an equation mentions a class that has two or more variables in the
+    equation's own component (equivalent through a variable of another component)"""
+    for s in group_systems:
+        for c in s["comps"]:
+            count = {}
+            for v in c["vars"]:
+                count[v["cls"]] = count.get(v["cls"], 0) + 1
+            byname = {v["name"]: v["cls"] for v in c["vars"]}
+            for q in c["eqs"]:
+                if any(count[byname[n]] >= 2 for n in A.expr_names(q["lhs"]) + A.expr_names(q["rhs"])):
+                    return True
+    return False
+
+
 def kf_nla_split(impl_line):
     """matcher of C05-nla-system-split: an NLA equation one of whose siblings has another sibling set / system index"""
     f = fields(impl_line)
@@ -140,23 +156,47 @@ def kf_nla_split(impl_line):
 
 # ------------------------------------------------------------------------------------------ generation
 
+FAULT_PAIRS = list(itertools.combinations(range(len(A.ILL_POSED)), 2))
+FAULT_TRIPLES = list(itertools.combinations(range(len(A.ILL_POSED)), 3))
+
+
 def make_cases(ctx, n_systems, n_orders):
-    """list of groups; a group = dict(base=system, members=[(kind, system, naming)])"""
+    """list of groups; a group = dict(base=system, members=[(kind, system, naming)]).
+    Always first: the 8 systems of the model-type decision table and the corpus (witnesses of the findings).  Then the
+    generated systems: every third one with each single fault, every third one with two pairs of faults (cycling
+    through all pairs of fault kinds, in random order) and, every other time, a triple."""
     rng = ctx.rng
     groups = []
     corpus = os.path.join(vf.ROOT, "corpus", "C05.jsonl")
-    seeds = []
+    seeds = A.decision_table_systems()
     if os.path.exists(corpus):
-        seeds = [json.loads(l) for l in open(corpus) if l.strip()]
+        seeds += [json.loads(l) for l in open(corpus) if l.strip()]
+    npair = ntriple = 0
     for i in range(n_systems + len(seeds)):
         if i < len(seeds):
             base = seeds[i]
         else:
             base = A.random_system(rng, max_classes=rng.choice([4, 6, 8, 10]))
         variants = [base]
-        if i % 2 == 0 or i < len(seeds):
+        if base["truth"]["variant"] == "table":
+            pass
+        elif i % 3 == 0 or i < len(seeds):
             for f in A.ILL_POSED:
                 v = f(rng, base)
+                if v is not None:
+                    variants.append(v)
+        elif i % 3 == 1:
+            combos = []
+            for _ in range(2):
+                combos.append(FAULT_PAIRS[npair % len(FAULT_PAIRS)])
+                npair += 1
+            if (i // 3) % 2 == 0:
+                combos.append(FAULT_TRIPLES[ntriple % len(FAULT_TRIPLES)])
+                ntriple += 1
+            for combo in combos:
+                fs = [A.ILL_POSED[j] for j in combo]
+                rng.shuffle(fs)
+                v = A.variant_combination(rng, base, fs)
                 if v is not None:
                     variants.append(v)
         for b in variants:
@@ -169,6 +209,28 @@ def make_cases(ctx, n_systems, n_orders):
                 members.append(("renamed-per-component", r, "plain"))
             groups.append({"base": b, "members": members})
     return groups
+
+
+def only_cc_vs_algebraic(c1, c2):
+    """two classifications with the same model type that differ only in computed_constant <-> algebraic roles:
+    the matcher of C05-requalification-single-sweep"""
+    if c1[0] != c2[0] or c1 == c2:
+        return False
+    r1, r2 = dict(c1[1]), dict(c2[1])
+    if set(r1) != set(r2):
+        return False
+    return all(r1[k] == r2[k] or {r1[k], r2[k]} == {"computed_constant", "algebraic"} for k in r1)
+
+
+def table_cell(impl_line):
+    """(has a variable of unknown type, has a state that is not initialised, has an over-constrained variable) as told
+    by the issues of an analysis, and the model type those imply by AnalyserModel::Type's decision table"""
+    u, s, o = int("E:UNUSED:" in impl_line), int("E:STATE_NOT_INIT:" in impl_line), int("E:COMPUTED_TWICE:" in impl_line)
+    if u or s:
+        exp = "unsuitably_constrained" if o else "underconstrained"
+    else:
+        exp = "overconstrained" if o else None
+    return (u, s, o), exp
 
 
 # ------------------------------------------------------------------------------------------ the check
@@ -185,7 +247,7 @@ def run(ctx):
         "are what the generator assumes beyond the property text: they are counted in the evidence, not demanded",
     ]
     drv, mdl = drivers()
-    n_systems = 300 if quick else 5000
+    n_systems = 300 if quick else 3500
     groups = make_cases(ctx, n_systems, 3)
     flat = []
     for gi, g in enumerate(groups):
@@ -200,7 +262,8 @@ def run(ctx):
     wf_model = run_sharded(mdl, ["wf"], [m + " | " + c for m, c in zip(mlines, model)], ctx.workdir, "wfm")
 
     hist = {"model_type": {}, "variant": {}, "features": {}, "member_kind": {}, "equations": {}, "components": {},
-            "wf_clauses_failing_on_impl": {}, "first_pass_complete": {"yes": 0, "no": 0}}
+            "wf_clauses_failing_on_impl": {}, "first_pass_complete": {"yes": 0, "no": 0},
+            "fault_combinations": {}, "model_type_decision_table": {}}
 
     def bump(h, k):
         hist[h][k] = hist[h].get(k, 0) + 1
@@ -238,6 +301,16 @@ def run(ctx):
             violation("C05: implementation %s" % c[:60], "impl_failure", payload(i))
             continue
         bump("model_type", fields(c)["T"])
+        # ---- oracle (d): the model type follows from the kinds of variable errors reported (decision table)
+        cell, exp_type = table_cell(c)
+        if fields(c)["T"] in ("underconstrained", "overconstrained", "unsuitably_constrained") or cell != (0, 0, 0):
+            key = "unknown=%d should_be_state=%d overconstrained=%d -> %s" % (cell + (fields(c)["T"],))
+            bump("model_type_decision_table", key)
+            if fields(c)["T"] != exp_type:
+                violation("C05 oracle: model type %s does not follow from the variable errors reported (expected %s)" % (fields(c)["T"], exp_type),
+                          "table", payload(i))
+        if tr.get("variant") == "combo" and kind == "listed":
+            bump("fault_combinations", "+".join(sorted(tr["faults"])))
         # ---- oracle (a): well-formedness of the real AnalyserModel (AnalysisSpec.wf_failures, extracted)
         w = wf_impl[i]
         if w not in ("WF=ok", "WF=na"):
@@ -283,7 +356,13 @@ def run(ctx):
         if len(set(cls)) > 1:
             j = next(k for k in range(len(cls)) if cls[k] != cls[0])
             txt = "classification changes with order/naming (%s vs %s): %s" % (cls[0][0], cls[j][0], A.to_model_line(systems[0])[:80])
-            if not fpc and ctx.known_finding("C05-nla-pass-order-dependent", txt):
+            if not fpc and all(c == cls[0] or only_cc_vs_algebraic(cls[0], c) for c in cls) and ctx.known_finding(
+                    "C05-requalification-single-sweep",
+                    "a variable is a computed constant or algebraic depending on the order of the equations: %s" % A.to_model_line(systems[0])[:80]):
+                pass
+            elif not fpc and ctx.known_finding("C05-nla-pass-order-dependent", txt):
+                pass
+            elif kf_same_component(systems) and ctx.known_finding("C05-same-component-equivalents", txt):
                 pass
             else:
                 violation("C05 oracle: classification is not invariant under re-ordering / renaming", "invariance",
@@ -293,7 +372,7 @@ def run(ctx):
             t, roles = cls[k]
             roles = dict(roles)
             var = tr["variant"]
-            nla_feat = any(x in ("nla1", "nlasys") for x in tr["kinds"].values())
+            nla_feat = any(x in ("nla1", "nlasys") for x in tr.get("kinds", {}).values())
             bad = None
             if var == "base":
                 if t != tr["type"]:
@@ -304,9 +383,24 @@ def run(ctx):
                         if r is not None and got != ({"voi": "voi"}.get(r, r)):
                             bad = "class %s is %s, expected %s" % (kk, got, r)
                             break
+                if bad and not fpc and t == tr["type"] and "is computed_constant, expected algebraic" in bad and ctx.known_finding(
+                        "C05-requalification-single-sweep", "%s although it depends on an NLA unknown: %s" % (bad, mlines[i][:80])):
+                    bad = None
                 if bad and not fpc and ctx.known_finding("C05-nla-pass-order-dependent",
                                                          "a well-posed system is mis-classified (%s): %s" % (bad, mlines[i][:80])):
                     bad = None
+                if bad and kf_same_component(systems) and ctx.known_finding(
+                        "C05-same-component-equivalents", "a well-posed system is mis-classified (%s): %s" % (bad, mlines[i][:80])):
+                    bad = None
+            elif var == "table":
+                if t != tr["type"]:
+                    bad = "decision table cell %s: model type %s, expected %s" % (tr["cell"], t, tr["type"])
+            elif var == "combo":
+                pass
+            elif var in ("nonconstant_init", "two_vois"):
+                rule = "NON_CONST_INIT" if var == "nonconstant_init" else "VOI_SEVERAL"
+                if t != "invalid" or rule not in impl[i]:
+                    bad = "expected an invalid model with %s" % rule
             elif var in ("double_init", "initialised_voi"):
                 rule = "INIT_TWICE" if var == "double_init" else "VOI_INIT"
                 if t != "invalid" or rule not in impl[i]:
@@ -352,14 +446,24 @@ def run(ctx):
     ctx.cov["traces_validated_against_impl"] = len(flat)
     ctx.cov["rule"] = ("%d generated well-posed systems (random dependency DAGs of constants, computed constants, algebraic equations, "
                        "ODEs, single non-isolated equations and NLA systems with initial guesses, over 1-3 flat or encapsulated components "
-                       "joined by map_variables, aliased and shared variable names) and for every second one its 5 ill-posed variants "
-                       "(extra equation, missing equation, uninitialised state, doubly initialised class, initialised voi); each listed in 3 "
+                       "joined by map_variables, aliased and shared variable names, classes with several variables in one component linked "
+                       "through another component) plus the 8 systems of the model-type decision table and the corpus; every third one with its "
+                       "7 single faults (extra equation, missing equation, uninitialised state, doubly initialised class, initialised voi, "
+                       "non-constant initialisation, second voi), every third one with pairs / triples of faults cycling through all pairs; each listed in 3 "
                        "orders (components, variables, equations, connections shuffled), globally renamed, and renamed per component. "
                        "Every document goes through Parser -> Analyser and the extracted model; non-trivial = >= 2 equations and (a class "
                        "with >= 2 member variables or an ODE or a non-isolated equation); distinct by abstract system text + naming" % n_systems)
     k = len(flat) // 3
     ctx.cov["samples"] = [mlines[0], mlines[k], {"cellml": A.to_cellml(flat[k][3], A.Naming(flat[k][4])), "impl": impl[k]}]
     ctx.cov["exhaustive"] = False
+    cells = sorted({k.split(" -> ")[0] for k in hist["model_type_decision_table"]})
+    ctx.cov["decision_table_cells_covered"] = "%d of 7 error combinations of {unknown, should_be_state, overconstrained} (+ the valid one): %s" % (
+        len([c for c in cells if c != "unknown=0 should_be_state=0 overconstrained=0"]), cells)
+    pairs_seen = set()
+    for k in hist["fault_combinations"]:
+        fs = k.split("+")
+        pairs_seen |= {tuple(sorted(x)) for x in itertools.combinations(fs, 2)}
+    ctx.cov["fault_pairs_covered"] = "%d of %d pairs of fault kinds injected together" % (len(pairs_seen), len(FAULT_PAIRS))
     ctx.cov["input_distribution"] = hist
     ctx.log("model types %s" % hist["model_type"])
     ctx.log("wf clauses failing on the implementation: %s" % hist["wf_clauses_failing_on_impl"])
